@@ -483,4 +483,94 @@ theorem sliceStorePure_mono (t t' : RootAccessTrie) (req : Request) (es : Entiti
       exact hle'.2.1
     exact h5' tr' hm' d hd a (ancRequest_mono _ _ hbelow req a _ _ hanc' hreq) had
 
+/-! ## executable checks of the orders (for closed examples) -/
+
+mutual
+def leB : AccessTrie → AccessTrie → Bool
+  | .mk c1 a1 i1 _, t2 => fieldsLeB c1 t2.children && rootsLeB a1 t2.ancestors && (!i1 || t2.isAncestor)
+def fieldsLeB : Fields → Fields → Bool
+  | [], _ => true
+  | (k, t) :: rest, c2 => (match lookupField c2 k with | some t2 => leB t t2 | none => false) && fieldsLeB rest c2
+def rootsLeB : RootAccessTrie → RootAccessTrie → Bool
+  | [], _ => true
+  | (k, t) :: rest, c2 => (match lookupRoot c2 k with | some t2 => leB t t2 | none => false) && rootsLeB rest c2
+end
+
+mutual
+theorem leB_sound : ∀ (t1 t2 : AccessTrie), leB t1 t2 = true → AccessTrie.le t1 t2
+  | .mk c1 a1 i1 e1, t2, h => by
+    simp only [leB, Bool.and_eq_true, Bool.or_eq_true, Bool.not_eq_true'] at h
+    simp only [AccessTrie.le]
+    refine ⟨fieldsLeB_sound c1 _ h.1.1, rootsLeB_sound a1 _ h.1.2, ?_⟩
+    intro hi
+    rcases h.2 with h2 | h2
+    · rw [hi] at h2; cases h2
+    · exact h2
+theorem fieldsLeB_sound : ∀ (c1 c2 : Fields), fieldsLeB c1 c2 = true → fieldsLe c1 c2
+  | [], _, _ => by simp [fieldsLe]
+  | (k, t) :: rest, c2, h => by
+    simp only [fieldsLeB, Bool.and_eq_true] at h
+    simp only [fieldsLe]
+    refine ⟨?_, fieldsLeB_sound rest c2 h.2⟩
+    cases hl : lookupField c2 k with
+    | none => simp [hl] at h
+    | some t2 =>
+      simp only [hl] at h
+      exact ⟨t2, rfl, leB_sound t t2 h.1⟩
+theorem rootsLeB_sound : ∀ (c1 c2 : RootAccessTrie), rootsLeB c1 c2 = true → rootsLe c1 c2
+  | [], _, _ => by simp [rootsLe]
+  | (k, t) :: rest, c2, h => by
+    simp only [rootsLeB, Bool.and_eq_true] at h
+    simp only [rootsLe]
+    refine ⟨?_, rootsLeB_sound rest c2 h.2⟩
+    cases hl : lookupRoot c2 k with
+    | none => simp [hl] at h
+    | some t2 =>
+      simp only [hl] at h
+      exact ⟨t2, rfl, leB_sound t t2 h.1⟩
+end
+
+mutual
+def flagsAgreeB : AccessTrie → AccessTrie → Bool
+  | .mk c1 _ _ e1, t2 => (!t2.isEntity || e1) && fieldsAgreeB c1 t2.children
+def fieldsAgreeB : Fields → Fields → Bool
+  | [], _ => true
+  | (k, t) :: rest, c2 => (match lookupField c2 k with | some t2 => flagsAgreeB t t2 | none => true) && fieldsAgreeB rest c2
+end
+
+def flagsAgreeRootsB : RootAccessTrie → RootAccessTrie → Bool
+  | [], _ => true
+  | (k, t) :: rest, c2 => (match lookupRoot c2 k with | some t2 => flagsAgreeB t t2 | none => true) && flagsAgreeRootsB rest c2
+
+mutual
+theorem flagsAgreeB_sound : ∀ (t1 t2 : AccessTrie), flagsAgreeB t1 t2 = true → FlagsAgree t1 t2
+  | .mk c1 a1 i1 e1, t2, h => by
+    simp only [flagsAgreeB, Bool.and_eq_true, Bool.or_eq_true, Bool.not_eq_true'] at h
+    simp only [FlagsAgree]
+    refine ⟨?_, fieldsAgreeB_sound c1 _ h.2⟩
+    intro he
+    rcases h.1 with h1 | h1
+    · rw [he] at h1; cases h1
+    · exact h1
+theorem fieldsAgreeB_sound : ∀ (c1 c2 : Fields), fieldsAgreeB c1 c2 = true → fieldsAgree c1 c2
+  | [], _, _ => by simp [fieldsAgree]
+  | (k, t) :: rest, c2, h => by
+    simp only [fieldsAgreeB, Bool.and_eq_true] at h
+    simp only [fieldsAgree]
+    refine ⟨?_, fieldsAgreeB_sound rest c2 h.2⟩
+    intro t2 hl
+    simp only [hl] at h
+    exact flagsAgreeB_sound t t2 h.1
+end
+
+theorem flagsAgreeRootsB_sound : ∀ (c1 c2 : RootAccessTrie), flagsAgreeRootsB c1 c2 = true → FlagsAgreeRoots c1 c2
+  | [], _, _ => by simp [FlagsAgreeRoots]
+  | (k, t) :: rest, c2, h => by
+    simp only [flagsAgreeRootsB, Bool.and_eq_true] at h
+    simp only [FlagsAgreeRoots]
+    refine ⟨?_, flagsAgreeRootsB_sound rest c2 h.2⟩
+    intro t2 hl
+    simp only [hl] at h
+    exact flagsAgreeB_sound t t2 h.1
+
 end Cedar.Manifest
